@@ -33,6 +33,17 @@ def outcome_of(pp, s, watchdog=2.0):
     return (info["cls"], info["isv"], ser, valid)
 
 
+def real_outcome(pp, s):
+    """Outcome of the real parse() in the vocabulary of spec/ParserMachine.tla!Outcome."""
+    from harness import project
+    o, v = call(pp.parse, s)
+    if o != "ret":
+        return {"cls": "reject", "chains": [], "links": []}
+    if isinstance(v, pp.ProFormaAnnotation):
+        return {"cls": "accept", "chains": [project.ann(v)], "links": []}
+    return {"cls": "accept", "chains": [project.ann(a) for a in v.annotations], "links": [bool(c) for c in v.connections]}
+
+
 def _work(args):
     first_tokens, length = args
     sys.path.insert(0, "/repo/src")
@@ -148,6 +159,19 @@ def run(tier, seed, rep):
         for slot in SLOTS:
             evs.append(deferred_event(pp, f"D{j}", v, slot, rnd))
             j += 1
+    # conformance of the TLA+ parser machine with the real parser on every short token string (evidence, not a verdict:
+    # C09 does not say which malformed strings are rejected, so a divergence is recorded, never reported as a violation)
+    r = core.model_check("MC_Parser", "MC_Parser.cfg", workers=8)
+    rep.add_mc("MC_Parser (parser machine: terminates, never reads past the end, accepted results are well formed)", r)
+    mlen = 4 if thorough else 3
+    strs = ["".join(t) for n in range(0, mlen + 1) for t in itertools.product(TOKENS, repeat=n)]
+    mevs = []
+    for i in range(0, len(strs), 500):
+        chunk = strs[i:i + 500]
+        mevs.append({"tid": f"mach{i}", "k": "machine", "strings": chunk, "outs": [real_outcome(pp, x) for x in chunk]})
+    mres = core.validate_traces("Trace_Machine", mevs, "C09", min_per_shard=2)
+    divergences = mres.get("outs", [])
+    rep.add_trace("parser_machine_conformance", mevs, mres, traces=len(strs))
     res = core.validate_traces("Trace_Parser", evs, "C09")
     rep.add_trace("parser_totality", evs, res, traces=nstrings + sum(v[0] for v in buckets.values()) + j,
                   sig=lambda e: (e["k"], json.dumps(e.get("outcome")), e.get("valid"), e.get("v"), e.get("slot")))
@@ -156,7 +180,9 @@ def run(tier, seed, rep):
                            "watchdog), seeded random strings up to 40 tokens, single-token mutations of valid strings, and "
                            "the deferred-validation corpus x 6 modification slots; strings are bucketed by outcome, every "
                            "outcome class reaches TLC", exhaustive=True,
-                      extra={"strings_parsed": nstrings + sum(v[0] for v in buckets.values())})
+                      extra={"strings_parsed": nstrings + sum(v[0] for v in buckets.values()),
+                             "parser_machine_strings": len(strs), "parser_machine_divergences": len(divergences),
+                             "parser_machine_divergence_samples": [list(map(str, d)) for d in divergences[:10]]})
 
 
 def replay(path):
